@@ -195,6 +195,20 @@ theorem block_parse_pp (xs : List S) (rest : List Tok) (hok : okItems xs = true)
 theorem stmt_fuel_irrelevant {f f' : Nat} {ts x} (h : stmt f ts = some x) (hf : f ≤ f') : stmt f' ts = some x :=
   (le_of_le hf).stmt _ _ h
 
+/-- **Bounded recursion, and the model as a decision procedure.**  Every successful parse consumes at least one token, and whatever
+ANY fuel yields on a token list, fuel `2 · length + 1` yields: the recursion depth of the statement parser is bounded by (twice) the
+number of tokens, and running the model with that fuel decides acceptance. -/
+theorem stmt_fuel_bound (ts : List Tok) {f : Nat} {x : S × List Tok} (h : stmt f ts = some x) :
+    stmt (2 * ts.length + 1) ts = some x := (fuel_bound ts.length).1 ts (Nat.le_refl _) f x h
+theorem stmt_consumes {f : Nat} {ts : List Tok} {s : S} {rest : List Tok} (h : stmt f ts = some (s, rest)) : rest.length < ts.length :=
+  (cons_all f).stmt ts s rest h
+
+/-- the round trip with the fuel named -/
+theorem statement_parse_pp_fuel (s : S) (rest : List Tok) (hok : ok s = true) (hne : openEnd s = true → NoElse rest) :
+    stmt (2 * (pp s ++ rest).length + 1) (pp s ++ rest) = some (s, rest) := by
+  obtain ⟨f, hf⟩ := statement_parse_pp s rest hok hne
+  exact stmt_fuel_bound _ hf
+
 /-- **the dangling `else`**: `if (a) if (b) s; else t;` is the tree whose INNER `if` has the `else` -/
 example : (match stmt 10 [.kif, .lp, .e 0, .rp, .kif, .lp, .e 1, .rp, .e 2, .semi, .kelse, .e 3, .semi] with
     | some (s, []) => S.beq s (.ite 0 (.itel 1 (.expr 2) (.expr 3))) | _ => false) = true := by decide
